@@ -281,9 +281,31 @@ func agentStatus(t *testing.T, tp *simrt.Tape, cfg simrt.Config, sc *agentScenar
 		}
 		sc.Second.DagPrecond = 0
 	}
+	// a quarter of the status scenarios are quiet: no injected stalls or latencies, and retries that wait
+	// longer than the status protocol's 3 s client timeout. There a status query that runs into that timeout
+	// while the run's socket is listening has no excuse
+	quiet := !crash && chance(tp, 1, 4)
+	if quiet {
+		cfg.PreemptDelayNum, cfg.LatencyScale = 0, 0
+		sc.Sched.StallPerM, sc.Sched.LatScale = 0, 0
+		for i := range sc.Dag.Steps {
+			st := &sc.Dag.Steps[i]
+			if st.RetryLimit > 0 {
+				st.RetryInterval = pick(tp, 4, 5)
+				if st.FailFirst == 0 {
+					st.FailFirst = 1
+				}
+			}
+		}
+	}
 	nObs := 4 + tp.Draw(simrt.SGen, 10)
 	for i := 0; i < nObs; i++ {
 		sc.ObsGapMs = append(sc.ObsGapMs, pick(tp, 0, 1, 5, 30, 90, 100, 101, 250, 800))
+	}
+	if quiet {
+		for i := 0; i < 6; i++ {
+			sc.ObsGapMs = append(sc.ObsGapMs, pick(tp, 400, 800, 1300))
+		}
 	}
 	var cw *cliWorld
 	var first *cliProc
@@ -344,7 +366,9 @@ func agentStatus(t *testing.T, tp *simrt.Tape, cfg simrt.Config, sc *agentScenar
 			return simrt.Fault{Kind: simrt.FKillAfter}
 		}
 	}
+	acceptFaultOn := false
 	if !crash && chance(tp, 1, 3) {
+		acceptFaultOn = true
 		// fault "accept_error": one accept(2) on the run's status socket fails with a transient error (the
 		// process is momentarily out of descriptors); the run must stay reachable and be reported live
 		acceptErrAt := tp.Draw(simrt.SFault, 4)
@@ -461,6 +485,9 @@ func agentStatus(t *testing.T, tp *simrt.Tape, cfg simrt.Config, sc *agentScenar
 			// the query ran into the protocol's 3 s client timeout (the peer was not scheduled in time):
 			// the answer then comes from the persisted history, by design
 			bump(out, "observation_hit_client_timeout")
+			if quiet && !acceptFaultOn && first.bindSeq != 0 && o.Inv > first.bindSeq && (first.unbindSeq == 0 || o.Ret < first.unbindSeq) && (exitSeq == 0 || o.Ret < exitSeq) {
+				chk.viol("live-status-timeout", "no-stalls", "a status query took %v and ran into the client timeout while the run's socket was listening and nothing was stalled: the run did not answer", o.RetAt-o.InvAt)
+			}
 			continue
 		}
 		if o.Err != nil {
